@@ -10,6 +10,7 @@ package main
 
 import (
 	"fmt"
+	"hash/fnv"
 	"io"
 	"log/slog"
 	"os"
@@ -162,6 +163,14 @@ func (w *gfWorld) cleanup() {
 		_ = os.RemoveAll(w.dir)
 		w.dir = ""
 	}
+}
+
+// gfHash is a short content hash (makes the op lines of different worlds distinct).
+func gfHash(s string) string {
+	h := fnv.New64a()
+	_, _ = h.Write([]byte(s))
+
+	return fmt.Sprintf("h%x", h.Sum64())
 }
 
 // describe is the human-readable note of a world.
